@@ -325,6 +325,49 @@ func c16R2(c *Ctx, rule string) {
 		if nResp != 1 {
 			c.Bad(rule, "handleCommand:response-encode", c.P.Pos(fn.Pos()), "one Encode(resp.Response)", fmt.Sprintf("%d", nResp))
 		}
+		// the reply always has both frames: a nil return means error string
+		// AND response body were encoded (the caller always decodes two values)
+		rb := c.Run(&engine.Automaton{Fn: fn, Tracks: []engine.Track{
+			engine.Event("errStr", func(in ssa.Instruction) bool { return isEnc(in) && strings.Contains(c.P.Arg(in, 0), ".Error.Error()") }),
+			engine.Event("body", func(in ssa.Instruction) bool { return isEnc(in) && strings.HasSuffix(c.P.Arg(in, 0), ".Response") }),
+			engine.PredCond("bodyErr", func(cd engine.Cond) (bool, int) {
+				if cd.IsRel && strings.HasPrefix(cd.X, "p3.Encode(") && strings.HasSuffix(cd.X, ".Response)") && cd.Y == "nil" {
+					if isNEc(cd) {
+						return true, engine.True
+					}
+					return true, engine.False
+				}
+				return false, 0
+			}),
+		}})
+		nNil := 0
+		for _, ret := range engine.ReturnsOf(fn) {
+			if c.P.D(engine.ReturnValues(ret)[0]) != "nil" {
+				continue
+			}
+			nNil++
+			c.RequireAt(rb, rule, "handleCommand:reply-always-two-frames", ret, "a handled command is answered with exactly the two frames the caller decodes: error string, then response body – both on every path (also when the handler answered with a nil response)", func(v engine.View) bool {
+				return v.Seen("errStr") && v.Seen("body") && v.F("bodyErr")
+			})
+		}
+		if nNil == 0 {
+			c.Bad(rule, "handleCommand:reply-always-two-frames", c.P.Pos(fn.Pos()), "a nil return after replying", "none")
+		}
+		// the decoded request reaches the handler untouched
+		nMut := 0
+		var mutD string
+		engine.EachInstr(fn, func(in ssa.Instruction) {
+			st, ok := in.(*ssa.Store)
+			if !ok {
+				return
+			}
+			a := c.P.D(st.Addr)
+			if strings.HasPrefix(a, "var(") && strings.Contains(a, "Request)") && strings.Contains(a, ".") {
+				nMut++
+				mutD = a + " = " + c.P.D(st.Val)
+			}
+		})
+		c.Check(rule, "handleCommand:request-not-modified", c.P.Pos(fn.Pos()), "between decoding and hand-off the receiver never writes into the decoded request (the handler sees every field as sent)", nMut == 0, pick(nMut == 0, "no stores into request structs", mutD), 1)
 		// the response channel is per RPC
 		okCh := false
 		if f := c.P.LookupField("RPC", "RespChan"); f != nil {
